@@ -10,7 +10,7 @@ Protocol of the MLW weight codec (C07).  `-` stands for an empty list / empty st
   verdict = `ok extra=<k> n=<decoded> slices=<…>` | `decode-error:<kind>` | `not16:<len>` |
             `mismatch idx=<i> got=<v|none> exp=<v|none> n=<decoded> slices=<…>` | `bad-frame end=<pos>` | `bad-config` | `bad-src`
 * `reorder <p csv>` → `ok <row-major source index or -1 for padding>,…` | `bad-config`
-* `reordercovers <p csv>` → `len=<n> pad=<k> covers=<0|1>` | `bad-config`
+* `reordercovers <p csv>` → `len=<n> plen=<closed-form padded length> pad=<k> covers=<0|1>` | `bad-config`
 * `mlwframe <pos>` → `<bits appended after a last slice ending at pos, as 0/1 string> bytes=<total bytes>`
 -/
 namespace VelaVerif.Handlers.Mlw
@@ -91,7 +91,7 @@ def handle : List String → Option String
     let p ← parseParams ps
     match reorder p with
     | none => some "bad-config"
-    | some cs => some s!"len={cs.length} pad={(cs.filter Option.isNone).length} covers={boolStr (covers p cs)}"
+    | some cs => some s!"len={cs.length} plen={paddedLength p} pad={(cs.filter Option.isNone).length} covers={boolStr (covers p cs)}"
   | ["mlwframe", pos] => do
     let pos ← parseNat? pos
     some (String.ofList ((frameBits pos).map fun b => if b then '1' else '0') ++ s!" bytes={frameBytes pos}")
